@@ -27,10 +27,10 @@ def gen_cases_for(seed_, n):
             shape = rng.choice(["list", "scalar"])
             if shape == "list":
                 samples = [{"colour": part + ([part[0]] if rng.random() < 0.5 else []), "n": j} for j, part in enumerate(parts)]
+                samples = samples[:5]
             else:
-                samples = [{"colour": v, "n": 1} for v in vals[:5]]
-                samples[0]["others"] = [{"colour": v} for v in vals[5:]]
-            samples = samples[:5]
+                # one distinct value per sample: k samples (the literal set is folded one sample at a time)
+                samples = [{"colour": v, "n": j % 3} for j, v in enumerate(vals)]
             opts["merge"] = [["exact"]]
         cases.append({"i": i, "models": [["Root", samples]], "opts": opts, "vseed": rng.randrange(1 << 30)})
     return cases
